@@ -116,6 +116,31 @@ fn h_geom_dyn(s: &mut RSrc, w: usize, h: usize) {
     geom_core(s, &data, &mut want, w, annex_j);
 }
 
+// the horizontal-edge pass alone on a WIDE image (W columns, 10 rows: one edge, rows 6..=9), rows 6..=9 symbolic, everything else zero:
+// the first 8*(W/8) columns go through the 8-lane kernel, the remaining W%8 through the scalar one, each column exactly once
+fn h_horiz_wide<S: Src, const W: usize, const N4: usize>(s: &mut S, k: fn(u8, u8, u8, u8, u8) -> (u8, u8, u8, u8)) {
+    let rows: [u8; N4] = s.arr();
+    let st = s.u8();
+    s.assume(st >= 1 && st <= 12);
+    let mut buf = vec![0u8; W * 10];
+    let mut i = 0;
+    while i < N4 {
+        buf[6 * W + i] = rows[i];
+        i += 1;
+    }
+    deblock_horiz(&mut buf, W, st);
+    let mut ok = buf.len() == W * 10;
+    let mut x = 0;
+    while x < W {
+        let (a, b, c, d) = k(rows[x], rows[W + x], rows[2 * W + x], rows[3 * W + x], st);
+        if buf[6 * W + x] != a || buf[7 * W + x] != b || buf[8 * W + x] != c || buf[9 * W + x] != d {
+            ok = false;
+        }
+        x += 1;
+    }
+    chk!(s, ok, "deblock.deblock_horiz.post_wide: on a wide image every column of the edge is filtered exactly once (8-lane chunks, then the scalar remainder)");
+    s.reach();
+}
 fn h_table_j2<S: Src>(s: &mut S) {
     let mut i = 0;
     let mut ok = QUANT_TO_STRENGTH.len() == 32;
@@ -147,6 +172,20 @@ mod proofs {
     fn kernel_simd() {
         h_kernel_simd(&mut KSrc)
     }
+
+    macro_rules! horiz_wide {
+        ($name:ident, $w:expr, $unw:expr) => {
+            #[kani::proof]
+            #[kani::unwind($unw)]
+            #[kani::stub(super::super::scalar_impl::process, k_scalar)]
+            #[kani::stub(super::super::simd_impl::process_simd, k_simd)]
+            fn $name() {
+                h_horiz_wide::<KSrc, $w, { 4 * $w }>(&mut KSrc, surrogate)
+            }
+        };
+    }
+    horiz_wide!(horiz_wide_257, 257, 1032);
+    horiz_wide!(horiz_wide_263, 263, 1056);
 
     macro_rules! lane {
         ($name:ident, $l:expr) => {
